@@ -30,7 +30,7 @@ def make_probe(rng, k, shared, variant, allow_empty=True):
     empty = [nt - 1] if ((variant + k) % 3 == 0 and allow_empty) else []         # the highest template owns no spike
     ds = D.random_dense(rng, ns=ns, nt=nt, nc=nc, nsw=shared['nsw'], rate=shared['rate'],
                         whitening='monomial' if shared['wm'][k] else 'none', empty_templates=empty)
-    ds['samples'] = np.sort(rng.randint(0, shared['tmax'], size=ns))         # ties within and across probes
+    ds['samples'] = np.sort(rng.randint(0, shared['tmax'], size=ns)) + shared.get('tbase', 0)   # ties within and across probes
     if (variant + k) % 2 == 0:
         # a channel map with gaps that need not start at 0 (raw file with more channels than the map)
         ds['ncdat'] = nc + int(rng.randint(1, 5))
@@ -63,7 +63,16 @@ def make_probe(rng, k, shared, variant, allow_empty=True):
             # (rows also for ids below the highest one that curation left without spikes)
             ids = sorted(set(ids) | set(c for c in range(int(max(ids))) if rng.rand() < 0.5))
             vals = {c: int(rng.randint(0, 100)) for c in ids if rng.rand() < 0.8}
-            tsv[fn] = 'cluster_id\t%s\n' % name + ''.join('%d\t%d\n' % (c, v) for c, v in sorted(vals.items()))
+            text = 'cluster_id\t%s\n' % name + ''.join('%d\t%d\n' % (c, v) for c, v in sorted(vals.items()))
+            # legal text-file variations: no newline after the last row, Windows line ends, a UTF-8 byte-order mark
+            style = (variant + k + len(tsv)) % 4
+            if style == 1 and vals:
+                text = text[:-1]
+            elif style == 2:
+                text = text.replace('\n', '\r\n')
+            elif style == 3:
+                text = '\ufeff' + text
+            tsv[fn] = text
             tsv_rec[name] = [[c, v] for c, v in sorted(vals.items())]
         else:
             tsv_rec[name] = []
@@ -95,7 +104,9 @@ def merge_once(ctx, d, rng, variant):
     shared = dict(nsw=int(rng.randint(2, 4)), rate=[1024, 2048, 1024.5][variant % 3], tmax=int(rng.choice([3, 8, 40])),
                   wm=[p_all or rng.rand() < 0.5 for _ in range(K)], sim=[p_all or rng.rand() < 0.5 for _ in range(K)],
                   ind_dtype=[np.uint32, np.int32, np.int64][variant % 3], tsv_p=[1.0, 0.5, 0.0][variant % 3],
-                  zero_x=[(variant % 7 == 3) and k < K - 1 for k in range(K)])
+                  zero_x=[(variant % 7 == 3) and k < K - 1 for k in range(K)],
+                  # 32-bit sample counters late in a long session (time * number of probes exceeds 2^32 / 2^31)
+                  tbase=1000000000 if (variant % 4 in (2, 3) and variant % 5 == 4) else 0)
     root = d / 'merge'
     shutil.rmtree(root, ignore_errors=True)
     subdirs, recs = [], []
